@@ -722,7 +722,7 @@ pub fn no_receivers<F: Fl, const KIND: u8, const TWO_SENDERS: bool, const RX0_FI
     // memory-reclamation epoch announcement pending or not (state injection, see Fl::raise_epoch_signal)
     let epoch_pending: bool = kani::any();
     if epoch_pending {
-        F::raise_epoch_signal(w.tx[0].as_ref().unwrap());
+        crate::world::inject_epoch_pending::<F>(w.tx[0].as_ref().unwrap());
     }
     // second sender handle or not, and the order in which the receivers go, are harness
     // parameters: structural choices made by the solver make allocation sizes and the Arc count
